@@ -623,6 +623,58 @@ func gen(r *vlib.R, n int, tier string, emit func(string)) {
 		}
 	}
 	budget -= fn
+	// the handler branches that exist twice: edns writer facts, ratelimit histories, as112 decisions
+	for i := 0; i < n/25; i++ {
+		labels := []string{mixCase(r, "www"), "example", "test"}
+		p := genPacket(r, labels, vlib.Pick(r, []uint16{1, 28, 46}), 1, r.Chance(1, 4))
+		emit(fmt.Sprintf("ed serve proto=%s pkt=%s", vlib.Pick(r, []string{"udp", "udp", "tcp", "doh"}), vlib.Hex(p.b)))
+	}
+	for c := 0; c < n/400+2; c++ {
+		emit(fmt.Sprintf("rl new rate=%d", vlib.Pick(r, []int{0, 1, 2, 3, 5})))
+		for i, m := 0, 4+r.Intn(9); i < m; i++ {
+			ck := "-"
+			if r.Chance(3, 4) {
+				ck = fmt.Sprintf("%d:%s", 1+r.Intn(3), vlib.Pick(r, []string{"n", "g", "g", "b"}))
+			}
+			extra := ""
+			if r.Chance(1, 8) {
+				extra = " replay=1"
+			} else if r.Chance(1, 25) {
+				extra = " lo=1"
+			}
+			emit(fmt.Sprintf("rl step proto=%s ck=%s%s", vlib.Pick(r, []string{"udp", "udp", "tcp"}), ck, extra))
+		}
+	}
+	zonePool := []string{"10.in-addr.arpa.", "168.192.in-addr.arpa.", "5.10.IN-ADDR.arpa.", "16.172.in-addr.arpa.", "d.f.ip6.arpa.", "8.e.f.ip6.ARPA.", "254.169.in-addr.arpa."}
+	for c := 0; c < n/600+2; c++ {
+		var zs []string
+		for _, z := range zonePool {
+			if r.Chance(1, 2) {
+				zs = append(zs, z)
+			}
+		}
+		if len(zs) == 0 {
+			zs = zonePool[:2]
+		}
+		emit("as new zones=" + strings.Join(zs, ","))
+		for i, m := 0, 6+r.Intn(10); i < m; i++ {
+			base := strings.ToLower(vlib.Pick(r, zonePool))
+			name := base
+			switch r.Intn(8) {
+			case 0:
+				name = "7." + base
+			case 1:
+				name = "3.7." + base
+			case 2: // sibling / parent
+				name = base[strings.Index(base, ".")+1:]
+			case 3:
+				name = vlib.Pick(r, []string{"arpa.", "in-addr.arpa.", "ip6.arpa.", "fooarpa.", "10.in-addr.fooarpa.", "www.example.test.", "1.2.3.4.in-addr.arpa.", "10.in-addr.arpa.example."})
+			case 4:
+				name = "x" + base
+			}
+			emit(fmt.Sprintf("as run name=%s qt=%d", mixCase(r, name), vlib.Pick(r, []int{12, 2, 6, 43, 43, 1, 255})))
+		}
+	}
 	// ladder correspondence through the live server
 	for _, r8198 := range []int{1, 0} {
 		emit(fmt.Sprintf("lad new r8198=%d", r8198))
@@ -630,12 +682,28 @@ func gen(r *vlib.R, n int, tier string, emit func(string)) {
 			for cut := 0; cut < 2; cut++ {
 				for _, fail := range []string{"-", "q", "z"} {
 					for cd := 0; cd < 2; cd++ {
-						emit(fmt.Sprintf("lad run ex=%d cut=%d fail=%s cd=%d nm=%s", ex, cut, fail, cd, uniq(r, &k)))
-						budget--
+						for _, cl := range []string{"do=0 small=0", "do=1 small=0", "do=1 small=1", "do=0 small=1"} {
+							emit(fmt.Sprintf("lad run ex=%d cut=%d fail=%s cd=%d %s nm=%s", ex, cut, fail, cd, cl, uniq(r, &k)))
+							budget--
+						}
 					}
 				}
 			}
 		}
+	}
+	// header word of every wire builder x request flag bits x poisoned slab
+	emit("lad new r8198=1")
+	for i := 0; i < 60+n/300; i++ {
+		kind := vlib.Pick(r, []string{"exact", "exactad", "cut", "fail", "fail"})
+		fl := 0x0100 | r.Intn(0x800)&^0x000f | r.Intn(16) // RD set, opcode 0, QR 0, every other bit free (incl. rcode bits of a query)
+		if r.Chance(1, 2) {
+			fl = 0x0100 | vlib.Pick(r, []int{0, 0x10, 0x20, 0x30, 0x40, 0x200, 0x400, 0x80})
+		}
+		if kind == "cut" {
+			fl &^= 0x10 // a CD query bypasses the cut rung
+		}
+		emit(fmt.Sprintf("lad hdr kind=%s fl=%d do=%d p=%d nm=%s", kind, fl, r.Intn(2), vlib.Pick(r, []int{255, 255, 0, 0x20, 0xa5, r.Intn(256)}), uniq(r, &k)))
+		budget--
 	}
 	// end-to-end differential
 	for budget > 0 {
